@@ -68,8 +68,10 @@ typedef struct {
     bool spread255;
     bool has_carry;
 } farr_t;
+static size_t g_exact_n = 0; /* when non-zero the next array has exactly this many elements */
 static void make_farr(rng_t *r, farr_t *f, size_t maxn) {
     size_t n = gen_len(r, maxn);
+    if (g_exact_n) n = g_exact_n;
     f->v = malloc(n * 8); /* exact-size heap block */
     f->n = n;
     unsigned baseexp = 1 + (unsigned)rng_below(r, 2040);
@@ -236,8 +238,16 @@ static double gen_request(rng_t *r) {
 static void c07_case(uint64_t idx, rng_t *r) {
     farr_t f;
     size_t maxn = g_param[0] ? g_param[0] : 600;
-    if (g_param[1] && idx % g_param[1] == g_param[1] - 1) maxn = 100000;
+    g_exact_n = 0;
+    if (g_param[1] && idx % g_param[1] == g_param[1] - 1) {
+        /* long arrays around the 15/16/17-bit element-count boundaries */
+        static const size_t bl[] = {32766, 32767, 32768, 32769, 40000, 65534, 65535, 65536, 65537, 70000, 98304, 100000, 131071, 131072, 131073, 200000};
+        maxn = 200000;
+        if (rng_chance(r, 3, 4)) g_exact_n = bl[rng_below(r, sizeof bl / sizeof bl[0])];
+        STAT_INC("c07_long_arrays");
+    }
     make_farr(r, &f, maxn);
+    g_exact_n = 0;
     uint64_t sig = f.n;
     bool nontriv = false;
     for (size_t i = 0; i < f.n; i++) {
